@@ -24,6 +24,8 @@ func syncPathFns(p *Program) map[*ssa.Function]bool {
 	for _, k := range []string{
 		"controller/composite.parentController.sync", "controller/decorator.decoratorController.sync",
 		"controller/composite.parentController.processNextWorkItem", "controller/decorator.decoratorController.processNextWorkItem",
+		// the reconcilers of the CompositeController / DecoratorController objects (called by controller-runtime)
+		"controller/composite.Metacontroller.Reconcile", "controller/decorator.Metacontroller.Reconcile",
 	} {
 		if f := p.Func(k); f != nil {
 			roots = append(roots, f)
@@ -185,6 +187,10 @@ func errorChecksMeanWhatTheySay(r *Report, p *Program, rule string) {
 								if c0, isC := engine.RetVal(rt, 0).(*ssa.Const); isC && c0.IsNil() && isNillableT(c0.Type()) {
 									return true
 								}
+								// … or "return Result{}, err": the zero value of a struct result
+								if isZeroStruct(engine.RetVal(rt, 0)) {
+									return true
+								}
 							}
 							return false
 						}}.Find()
@@ -245,6 +251,32 @@ func nilKnownNotDereferenced(r *Report, p *Program, rule string) {
 			iff, isIf := b.Instrs[len(b.Instrs)-1].(*ssa.If)
 			if !isIf {
 				continue
+			}
+			// v, ok := x.(*T): on the !ok edge v is the nil *T
+			if ex, isEx := iff.Cond.(*ssa.Extract); isEx && ex.Index == 1 {
+				if ta, isTA := ex.Tuple.(*ssa.TypeAssert); isTA && ta.CommaOk && isNillableT(ta.AssertedType) && len(b.Succs) == 2 {
+					var v0 ssa.Value
+					if refs := ta.Referrers(); refs != nil {
+						for _, u := range *refs {
+							if e0, ok := u.(*ssa.Extract); ok && e0.Index == 0 {
+								v0 = e0
+							}
+						}
+					}
+					if v0 != nil {
+						k := Short(FK(f)) + "[" + E(ta.X) + ".(T) !ok]"
+						c := sf("%s#%d", k, ord[k])
+						ord[k]++
+						n++
+						w := engine.Query{Fn: f, From: []engine.Point{{B: b.Succs[1]}}, CutInstr: func(x ssa.Instruction) bool { return x == ssa.Instruction(ta) },
+							Target: func(x ssa.Instruction) bool { return derefs(x, v0) }}.Find()
+						where := ""
+						if w != nil {
+							where = p.InstrPos(w.Instr)
+						}
+						r.Check(rule, c, p.InstrPos(iff), w == nil, "the zero value of a failed type assertion is not dereferenced", "on the edge where the type assertion of "+E(ta.X)+" failed its (nil) result is dereferenced at "+where+": the ok test is inverted")
+					}
+				}
 			}
 			for i := range b.Succs {
 				l, ok := engine.EdgeLit(b, i)
@@ -639,4 +671,277 @@ func sameOrPhiOf(x, ev ssa.Value) bool {
 		}
 	}
 	return false
+}
+
+// optionalFieldsChecked: a pointer-typed field of an API type (metacontroller
+// v1alpha1) that the schema marks optional (`omitempty`) is absent — nil — for
+// an ordinary, valid configuration. Every load of such a field, in any module
+// function outside the generated code, is nil-tested on every path to a
+// dereference of the loaded value (directly, or by a callee it is handed to).
+func optionalFieldsChecked(r *Report, p *Program, rule string, floor int) {
+	r.Rule(rule, "optional API fields (pointer-typed, omitempty, package apis/metacontroller/v1alpha1) are nil-tested on every path from the load to a dereference, also through callees the value is handed to")
+	optional := func(fa *ssa.FieldAddr) (string, bool) {
+		pt, ok := fa.X.Type().Underlying().(*types.Pointer)
+		if !ok {
+			return "", false
+		}
+		nm, _ := pt.Elem().(*types.Named)
+		st, ok := pt.Elem().Underlying().(*types.Struct)
+		if !ok || nm == nil || nm.Obj().Pkg() == nil || !strings.HasSuffix(nm.Obj().Pkg().Path(), "/pkg/apis/metacontroller/v1alpha1") {
+			return "", false
+		}
+		fld := st.Field(fa.Field)
+		if _, isPtr := fld.Type().Underlying().(*types.Pointer); !isPtr {
+			return "", false
+		}
+		if !strings.Contains(st.Tag(fa.Field), "omitempty") {
+			return "", false
+		}
+		return nm.Obj().Name() + "." + fld.Name(), true
+	}
+	ord := map[string]int{}
+	n := 0
+	for _, f := range p.Scanned {
+		k := FK(f)
+		if !strings.HasPrefix(k, engine.ModPrefix) || strings.Contains(k, "/pkg/client/generated") || strings.Contains(k, "zzmcvetcontrols") || strings.Contains(k, "/pkg/apis/") {
+			continue
+		}
+		for _, b := range f.Blocks {
+			for _, in := range b.Instrs {
+				ld, isLd := in.(*ssa.UnOp)
+				if !isLd || ld.Op != token.MUL {
+					continue
+				}
+				fa, isFA := ld.X.(*ssa.FieldAddr)
+				if !isFA {
+					continue
+				}
+				name, opt := optional(fa)
+				if !opt {
+					continue
+				}
+				key := Short(k) + "→" + name
+				c := sf("%s#%d", key, ord[key])
+				ord[key]++
+				n++
+				v := ssa.Value(ld)
+				// the same field read again and tested counts as a test of this load (no CSE in go/ssa)
+				same := func(x ssa.Value) bool {
+					if x == v {
+						return true
+					}
+					if u, ok := x.(*ssa.UnOp); ok && u.Op == token.MUL {
+						if fa2, ok := u.X.(*ssa.FieldAddr); ok && fa2.Field == fa.Field && engine.SameValue(fa2.X, fa.X) {
+							return true
+						}
+					}
+					return false
+				}
+				var at ssa.Instruction
+				// backward: was the field already tested on every path to this load?
+				atom := "(" + E(v) + " == nil)"
+				pre := unguarded(f, []engine.Point{{B: f.Blocks[0]}}, ld, func(l Lit) bool {
+					if l.Atom == atom && !l.Pos {
+						return true
+					}
+					x, isNil, isT := l.NilTest()
+					return isT && !isNil && x != nil && same(x)
+				})
+				if pre == nil {
+					r.Check(rule, c, p.InstrPos(ld), true, "loaded behind a nil test of the same field", "")
+					continue
+				}
+				w := engine.Query{Fn: f, From: []engine.Point{engine.After(ld)}, CutInstr: func(x ssa.Instruction) bool { return x == ssa.Instruction(ld) },
+					CutEdge: guardCut(func(l Lit) bool {
+						if l.Atom == atom {
+							return true
+						}
+						x, _, isT := l.NilTest()
+						return isT && x != nil && same(x)
+					}),
+					Target: func(x ssa.Instruction) bool {
+						if derefs(x, v) {
+							at = x
+							return true
+						}
+						return false
+					}}.Find()
+				where := ""
+				if at != nil {
+					where = p.InstrPos(at)
+				}
+				r.Check(rule, c, p.InstrPos(ld), w == nil, "nil-tested before every dereference", "optional field "+name+" is nil when the configuration leaves it out; it is dereferenced at "+where+" on a path that never tested it: a valid configuration without it panics the worker")
+			}
+		}
+	}
+	r.Floor(rule, floor)
+}
+
+// locksReleased: every Lock/RLock in a module function is released — by the
+// matching Unlock/RUnlock or a deferred one — on every path to a return and
+// before the same mutex is acquired again (sync mutexes are not reentrant; a
+// leaked lock blocks every other worker that shares the mutex for good).
+func locksReleased(r *Report, p *Program, rule string, floor int) {
+	r.Rule(rule, "every Lock/RLock is followed on every path to a return, and to any further acquisition of the same mutex, by the matching Unlock/RUnlock (or a deferred one)")
+	ord := map[string]int{}
+	for _, f := range p.Scanned {
+		k := FK(f)
+		if !strings.HasPrefix(k, engine.ModPrefix) || strings.Contains(k, "/pkg/client/generated") || strings.Contains(k, "zzmcvetcontrols") {
+			continue
+		}
+		for _, b := range f.Blocks {
+			for _, in := range b.Instrs {
+				call, isCall := in.(*ssa.Call)
+				if !isCall {
+					continue
+				}
+				m, op := engine.MutexOp(call.Common())
+				if op != "lock" && op != "rlock" {
+					continue
+				}
+				want := "unlock"
+				if op == "rlock" {
+					want = "runlock"
+				}
+				key := Short(k) + "→" + op + "(" + m + ")"
+				c := sf("%s#%d", key, ord[key])
+				ord[key]++
+				var at ssa.Instruction
+				what := ""
+				w := engine.Query{Fn: f, From: []engine.Point{engine.After(call)},
+					CutInstr: func(x ssa.Instruction) bool {
+						switch y := x.(type) {
+						case *ssa.Call:
+							m2, op2 := engine.MutexOp(y.Common())
+							return m2 == m && op2 == want
+						case *ssa.Defer:
+							m2, op2 := engine.MutexOp(y.Common())
+							return m2 == m && op2 == want
+						}
+						return false
+					},
+					Target: func(x ssa.Instruction) bool {
+						switch y := x.(type) {
+						case *ssa.Return:
+							at, what = x, "the function returns"
+							return true
+						case *ssa.Call:
+							if m2, op2 := engine.MutexOp(y.Common()); m2 == m && (op2 == "lock" || op2 == "rlock") {
+								at, what = x, "the same mutex is acquired again"
+								return true
+							}
+						}
+						return false
+					}}.Find()
+				why := ""
+				if w != nil && at != nil {
+					why = sf("%s taken here is still held when %s at %s: every other goroutine that needs %s blocks for good", op, what, p.InstrPos(at), m)
+				}
+				r.Check(rule, c, p.InstrPos(call), w == nil, "released on every path", why)
+			}
+		}
+	}
+	r.Floor(rule, floor)
+}
+
+// resultKeptOnSuccess: where the result of v, err := f(…) is merged with a
+// fallback value (v = fallback on one branch), the merged value is v on the
+// success side: the edge that carries v into the merge is reachable without
+// crossing 'err != nil'. An inverted test hands the fallback to the success
+// case and the failed call's (nil) result to the failure case.
+func resultKeptOnSuccess(r *Report, p *Program, rule string, floor int) {
+	r.Rule(rule, "sync paths: where a call's result is merged with a fallback, the result (not the fallback) is what flows on when the call succeeded")
+	fns := syncPathFns(p)
+	ord := map[string]int{}
+	for _, f := range p.Scanned {
+		if !fns[f] {
+			continue
+		}
+		for _, b := range f.Blocks {
+			for _, in := range b.Instrs {
+				ph, isPhi := in.(*ssa.Phi)
+				if !isPhi {
+					continue
+				}
+				for i, e := range ph.Edges {
+					ex, isEx := e.(*ssa.Extract)
+					if !isEx || ex.Index != 0 {
+						continue
+					}
+					call, isCall := ex.Tuple.(*ssa.Call)
+					if !isCall {
+						continue
+					}
+					ev := engine.ErrValue(call)
+					if ev == nil {
+						continue
+					}
+					// is the error tested at all between the call and the merge? (else not this rule's business)
+					tested := false
+					for _, bb := range f.Blocks {
+						for j := range bb.Succs {
+							if l, ok := engine.EdgeLit(bb, j); ok {
+								if x, _, isT := l.NilTest(); isT && engine.SameValue(x, ev) {
+									tested = true
+								}
+							}
+						}
+					}
+					if !tested {
+						continue
+					}
+					pred := b.Preds[i]
+					key := Short(FK(f)) + "→" + Short(engine.CallKey(call.Common()))
+					c := sf("%s#%d[result-kept]", key, ord[key])
+					ord[key]++
+					w := engine.Query{Fn: f, From: []engine.Point{engine.After(call)},
+						CutInstr: func(x ssa.Instruction) bool { return x == ssa.Instruction(call) },
+						CutEdge: func(bb *ssa.BasicBlock, j int, l *Lit) bool {
+							if bb.Succs[j] == b && bb != pred {
+								return true
+							}
+							if l != nil {
+								if x, isNil, isT := l.NilTest(); isT && !isNil && engine.SameValue(x, ev) {
+									return true // failure side
+								}
+							}
+							return false
+						},
+						Target: func(x ssa.Instruction) bool { return x == ssa.Instruction(ph) }}.Find()
+					r.Check(rule, c, p.InstrPos(call), w != nil, "the call's result flows on when it succeeded", "the result of "+Short(engine.CallKey(call.Common()))+" reaches the merge at "+p.InstrPos(ph)+" only on the failure side ('err != nil'), and the fallback replaces it when the call succeeded: the test is inverted")
+				}
+			}
+		}
+	}
+	r.Floor(rule, floor)
+}
+
+// isZeroStruct: v is the load of a local struct that is never written (T{}).
+func isZeroStruct(v ssa.Value) bool {
+	if c, isC := v.(*ssa.Const); isC && c.Value == nil {
+		_, isS := c.Type().Underlying().(*types.Struct)
+		return isS
+	}
+	u, ok := v.(*ssa.UnOp)
+	if !ok || u.Op != token.MUL {
+		return false
+	}
+	al, ok := u.X.(*ssa.Alloc)
+	if !ok || al.Heap {
+		return false
+	}
+	if _, isS := al.Type().(*types.Pointer).Elem().Underlying().(*types.Struct); !isS {
+		return false
+	}
+	if al.Referrers() == nil {
+		return true
+	}
+	for _, r := range *al.Referrers() {
+		if r != ssa.Instruction(u) {
+			if _, isLoad := r.(*ssa.UnOp); !isLoad {
+				return false
+			}
+		}
+	}
+	return true
 }
